@@ -148,7 +148,8 @@ nodeLoop:
 	}
 }
 
-// Copy makes a copy of this Tree.
+// Copy makes a deep copy of this Tree that is independent of later updates to
+// this Tree.
 func (bt *Tree) Copy() *Tree {
 	cp := &Tree{bytes: bt.bytes, length: bt.length, root: &node{}}
 	nodes := make([]*node, 0, bt.Length())
@@ -165,7 +166,18 @@ func (bt *Tree) Copy() *Tree {
 		nodes = nodes[1:]
 		nodeCopies = nodeCopies[1:]
 		for _, e := range n.edges {
-			cpt := &node{key: e.target.key, data: e.target.data}
+			// The copy must not share sequence bytes with this tree: sequences are
+			// updated in place, and the copy is read while this tree keeps changing.
+			var data []encoding.Sequence
+			if e.target.data != nil {
+				data = make([]encoding.Sequence, len(e.target.data))
+				for i, seq := range e.target.data {
+					if seq != nil {
+						data[i] = append(encoding.Sequence(nil), seq...)
+					}
+				}
+			}
+			cpt := &node{key: e.target.key, data: data}
 			cpn.edges = append(cpn.edges, &edge{label: e.label, target: cpt})
 			nodes = append(nodes, e.target)
 			nodeCopies = append(nodeCopies, cpt)
